@@ -7,6 +7,8 @@ import Tahoe.Immutable.IntegrityBytes
         → `healthy=<0|1> recoverable=<0|1> good=<n> corrupt=<n> incompatible=<n>`     (`Checker._format_results`)
   `verify <asis|fixed> <hashtree asis|fixed> <uebhash-hex> <k> <n> <size> <shnum> <share-hex>`
         → `good` | `corrupt` | `incompatible` | `raised`                  (`Checker._download_and_verify`)
+  `postrepair <k> <n> <pre-repair sharemap> <upload sharemap>`  (sharemap = `shnum:srv.srv;…` | `-`)
+        → `healthy=<0|1> recoverable=<0|1> good=<n>`                      (`_gather_repair_results`)
   `repair <present shnums .-list> <requested .-list>` → `already=<…> written=<…>` (abstract storage spec) -/
 open Tahoe.Drv Tahoe.Integrity Tahoe.IntegrityBytes Tahoe.Base.Merkle
 
@@ -58,6 +60,20 @@ def handle : List String → String
       match verifyShare realEnv cfg vc pick0 cap shnum (vviewOf cap sh) with
       | .good => "good" | .corrupt => "corrupt" | .incompatible => "incompatible" | .raised => "raised"
     | _, _, _, _, _, _, _, _ => "bad-op"
+  | ["postrepair", k, n, pre, ur] =>
+    -- pre / ur: sharemaps `shnum:srv.srv;shnum:srv` | `-`
+    let parseSm : String → Option (List (Nat × List Nat)) := fun t =>
+      if t == "-" then some [] else (t.splitOn ";").mapM (fun e => match e.splitOn ":" with
+        | [sh, ss] => do pure ((← sh.toNat?), (← dotList ss))
+        | _ => none)
+    match k.toNat?, n.toNat?, parseSm pre, parseSm ur with
+    | some k, some n, some pre, some ur =>
+      -- one ServerResult per (server, shnum) of the pre-repair sharemap, in sharemap order
+      let preRs : List ServerResult := pre.flatMap (fun (sh, ss) => ss.map (fun srv => ⟨srv, [sh], [], [], true⟩))
+      let urPairs : List (Nat × Nat) := ur.flatMap (fun (sh, ss) => ss.map (fun srv => (sh, srv)))
+      let r := gatherRepairResults k n preRs urPairs
+      s!"healthy={b01 r.healthy} recoverable={b01 r.recoverable} good={r.countGood}"
+    | _, _, _, _ => "bad-op"
   | ["repair", present, req] =>
     match dotList present, dotList req with
     | some p, some r =>
